@@ -235,8 +235,14 @@ private:
         JSONCONS_VISITOR_RETURN;
     }
 
-    JSONCONS_VISITOR_RETURN_TYPE visit_key(const string_view_type& name, const ser_context&, std::error_code&) final
+    JSONCONS_VISITOR_RETURN_TYPE visit_key(const string_view_type& name, const ser_context&, std::error_code& ec) final
     {
+        if (name.find('\0') != string_view_type::npos)
+        {
+            // an element name is a cstring: it ends at the first null character
+            ec = bson_errc::invalid_key;
+            JSONCONS_VISITOR_RETURN;
+        }
         stack_.back().member_offset(buffer_.size());
         buffer_.push_back(0x00); // reserve space for code
         for (auto c : name)
